@@ -496,3 +496,38 @@ def spelling_classes():
                         kept_spelling=(s in KEPT or first in KEPT)))
         return _result(n, fails, exhaustive='every documented synonym of the operator table')
     return run
+
+
+def comment_bodies(max_len):
+    """Comments do not matter, whatever their body: every body over a small
+    alphabet (exhaustive up to `max_len` characters)."""
+    def run():
+        fails = list()
+        n = 0
+        base = [('a /\\ b', ['a', '/\\', 'b']), ('~ p => ( q \\/ x1 ) \'', ['~', 'p', '=>', '(', 'q', r'\/', 'x1', ')', "'"])]
+        want = {t: repr(real_tree(t)) for t, _ in base}
+        alphabet = ['*', ' ', 'x', ')', '(', '\n', '~']
+        for L in range(max_len + 1):
+            for body in itertools.product(alphabet, repeat=L):
+                body = ''.join(body)
+                if '*)' in body:
+                    continue        # the closer inside the body ends the comment early
+                for text, toks in base:
+                    for pos in (0, 1, len(toks)):
+                        ml = ' '.join(toks[:pos]) + ' (*' + body + '*) ' + ' '.join(toks[pos:])
+                        variants = [ml]
+                        if pos == 1:
+                            variants.append(' '.join(toks[:pos]) + ' (*' + body + '*)(* y *) ' + ' '.join(toks[pos:]))
+                        if '\n' not in body:
+                            variants.append(' '.join(toks[:pos]) + ' \\*' + body + '\n ' + ' '.join(toks[pos:]))
+                        for v in variants:
+                            n += 1
+                            try:
+                                got = repr(real_tree(v))
+                            except Exception as e:
+                                got = repr(e)[:120]
+                            if got != want[text] and len(fails) < 10:
+                                fails.append(dict(name='Parser.parse: comments and line breaks do not matter',
+                                                  text=v, parser_tree=got, tree_without=want[text]))
+        return _result(n, fails, exhaustive=f'every comment body of at most {max_len} characters over {alphabet}')
+    return run
